@@ -229,9 +229,17 @@ def body(ctx, p):
                             # decide the special-angle case first, so that code and oracle, forward and reversed call, all see the
                             # same pinned / unpinned angle
                             _special = bool(tab[a2][1] == 180.) or bool(tab[a2][1] == 120.) or bool(tab[a2][1] == 90.)
-                            res = RU.angle_params(a1, a2, a3)
-                            rev = RU.angle_params(a3, a2, a1)
-                            rij, rjk = bp_stub(a1, a2)[1], bp_stub(a2, a3)[1]
+                            # bond orders: guessed, or given explicitly per bond (unequal, either way round); the reversed call
+                            # names the same two bonds in the opposite order
+                            bos = [None, [1.41, None], [2, 1], [1, 1.5]][ctx.choose(4, 'bond orders')]
+                            if bos is None:
+                                res = RU.angle_params(a1, a2, a3)
+                                rev = RU.angle_params(a3, a2, a1)
+                                rij, rjk = bp_stub(a1, a2)[1], bp_stub(a2, a3)[1]
+                            else:
+                                res = RU.angle_params(a1, a2, a3, bond_orders=list(bos))
+                                rev = RU.angle_params(a3, a2, a1, bond_orders=list(bos[::-1]))
+                                rij, rjk = bp_stub(a1, a2, bond_order=bos[0])[1], bp_stub(a2, a3, bond_order=bos[1])[1]
                             th = tab[a2][1]
                             k, c, s = o_angle(tab, a1, a2, a3, rij, rjk, th, cosf, sinf, sq)
                             n += 1
@@ -256,16 +264,20 @@ def body(ctx, p):
                     for a2, a3 in cpairs:
                         for a1, a4 in (('C_3', 'C_3'), ('C_2', 'C_3'), ('C_3', 'C_2'), ('C_2', 'C_2')):
                             seq = (a1, a2, a3, a4)
-                            for bo in (None, 1.5):
+                            for bo in (None, 1.5, 'rule'):
+                                rules = None
+                                if bo == 'rule':
+                                    # the central bond order comes from a user rule naming exactly the central pair
+                                    rules, bo = [({'H_', 'Zr8f4'}, 3), ({a2, a3}, 1.25)], None
                                 def call(s_):
                                     try:
-                                        return RU.dihedral_params(*s_, num_dihedrals_about_bond=M, bond_order=bo)
+                                        return RU.dihedral_params(*s_, num_dihedrals_about_bond=M, bond_order=bo, bond_order_rules=rules)
                                     except Exception as ex:
                                         if "we don't know how to handle this dihedral" in str(ex):
                                             return 'unsupported'
                                         raise
                                 res, rev = call(seq), call(seq[::-1])
-                                want = o_torsion(tab, seq, M, bo if bo is not None else o_guess_bo(a2, a3), sq, main_group)
+                                want = o_torsion(tab, seq, M, bo if bo is not None else (1.25 if rules else o_guess_bo(a2, a3)), sq, main_group)
                                 n += 1
                                 if res is None or res == 'unsupported' or want is None or want == 'unsupported':
                                     ctx.require('torsion undefined / unsupported exactly as documented, also under reversal', res == want and rev == res, detail=dict(seq=seq, got=str(res)))
@@ -300,6 +312,12 @@ def body(ctx, p):
                 if with_rules[0] != explicit[0] or any(abs(x - y) > 1e-9 * max(1, abs(x)) for x, y in zip(with_rules[1:], explicit[1:])):
                     bad.append((trip, 'angle rules', with_rules[1], explicit[1]))
             again = RU.angle_params(*trip)
+            # default (guessed) bond orders == the documented guesses given explicitly, whatever angle was parameterised before
+            for t2 in [trip, ('C_3', 'C_3', 'H_'), ('C_R', 'C_R', 'H_'), ('C_2', 'C_2', 'C_3')]:
+                dflt = RU.angle_params(*t2)
+                expl = RU.angle_params(*t2, bond_orders=[o_guess_bo(t2[0], t2[1]), o_guess_bo(t2[1], t2[2])])
+                if dflt[0] != expl[0] or any(abs(x - y) > 1e-9 * max(1, abs(x)) for x, y in zip(dflt[1:], expl[1:])):
+                    bad.append((t2, 'guessed bond orders depend on call history', dflt[1], expl[1]))
             if any(abs(x - y) > 1e-12 * max(1, abs(x)) for x, y in zip(base0[1:], again[1:])):
                 bad.append((trip, 'angle not reproducible'))
         ctx.observe('n', len(al) ** 2 * 5)
@@ -385,6 +403,23 @@ SELFTESTS = [
          mutate=[('mofun.rough_uff', "(chii**0.5 - chij**0.5)**2", "(chii**0.5 - chij**0.5)")],
          instance=dict(family='bond')),
 ]
+
+
+def hint_inputs(ctx, p):
+    """candidate witnesses tried on the real code when the nonlinear solver answers unknown: the shipped table's own rows, and a
+    perturbed copy (never a reason to pass; only a way to turn an inconclusive path into a replayed counterexample)"""
+    real_tab = ctx.ms.get('mofun.uff4mof').UFF4MOF
+    out = []
+    for scale in (1.0, 1.37):
+        d = {}
+        for n, row in real_tab.items():
+            for j in range(min(11, len(row))):
+                try:
+                    d[f"{n.replace('+', 'p')}_{j}"] = max(0.01, float(row[j]) * (scale if j % 2 else 1.0))
+                except (TypeError, ValueError):
+                    pass
+        out.append(d)
+    return out
 
 
 def evidence_extra(main_res):
